@@ -323,4 +323,24 @@ example :
     (a.exec (.lock .try 2 1 .none 100)).2.res.isGuard = false ∧ a.s.hs 2 = none ∧ a.s.touch 1 = a.s := by
   refine ⟨by decide, by decide, rfl⟩
 
+/-- **Dropping the future of a waiting lock call has no lasting effect — at the level of the public calls, in every reachable
+state**: after any sequence of API calls, `async_lock` (first poll: queued behind the owner `w` of the key) followed by the drop of
+that future leaves the *whole* API state — entries, values, queues (the waiter is out of the FIFO again), handles, every stream's
+items and ready queue, suspended calls — exactly as it was, up to the recency refresh of the lookup (`touch`; identity for hash map
+and pool). Hypotheses: the handle id is unused (`hs h = none`, and no suspended call is registered under it — there is no
+`SuspOk` invariant yet that would derive the latter from the former). -/
+theorem C06_wait_cancel_call_erased (kind : Kind) (cs : List Call) (h k h0 : Nat) (m : Entry) (w : Nat) :
+    let a := cs.foldl (fun a c => (a.exec c).1) (Api.init kind)
+    a.s.hs h = none → a.susp.lookup h = none → a.s.ent k = some m → m.holder = some w →
+    (((a.exec (.lock .wait h k .none h0)).1).exec (.cancel h)).1 = { a with s := a.s.touch k } := by
+  intro a hf hsu hm hho
+  exact lock_wait_cancel_erased a (ainv_execs cs _ (ainv_init kind)) h k h0 m w hf hsu hm hho
+
+/-- non-vacuity: key 1 held by guard 1, a stream open with its item queued behind it; handle 2 is unused, waits, is cancelled -/
+example :
+    let a := ((((Api.init .hashMap).exec (.lock .wait 1 1 .none 100)).1.exec (.lockAll 1 200)).1.exec (.spoll 1)).1
+    a.s.hs 2 = none ∧ a.susp.lookup 2 = none ∧ (∃ m, a.s.ent 1 = some m ∧ m.holder = some 1) ∧
+    (a.streams.map fun p => (p.2.items, p.2.ready)) = [([200], [])] := by
+  refine ⟨by decide, by decide, ⟨_, rfl, rfl⟩, by decide⟩
+
 end Lockable
